@@ -7,7 +7,7 @@ PROPERTIES = {
     "C02": [("ec", 1.0, 8)],
     "C04": [("cosign", 1.0, 10)],
     "C05": [("cosign", 1.0, 10)],
-    "C06": [("cosign", 1.0, 10)],
+    "C06": [("cosign", 0.88, 10), ("wallet", 0.12, 60)],
     "C07": [("cosign", 0.45, 10), ("wallet", 0.3, 60), ("wire", 0.25, 20)],
     "C09": [("hd", 1.0, 20)],
     "C13": [("wallet", 1.0, 60)],
